@@ -1180,7 +1180,12 @@ func (h *harness) pointWith(c pointCase, b *gq.Built, tags map[string]bool) {
 	}
 	nontrivial := false
 	if c.HasValue {
+		tsBefore := typedSlicesMade
 		gv := goValueT(c.Schema, c.Type, c.Value, c.NumMode)
+		if typedSlicesMade > tsBefore {
+			run.Tag("typedSliceVars")
+			run.Tag("typedSliceVars:pointwise")
+		}
 		var gValid bool
 		var gCoerced interface{}
 		if p := guard(func() {
@@ -1678,9 +1683,14 @@ func (h *harness) exec(c execCase, tags map[string]bool) {
 		run.Tag("exec:query-text-rejected-by-parser")
 		return
 	}
+	tsBefore := typedSlicesMade
 	rec, res, valid, pan := h.doQuery(c, c.Query)
 	if rec == nil {
 		return
+	}
+	if typedSlicesMade > tsBefore {
+		run.Tag("typedSliceVars")
+		run.Tag("typedSliceVars:end-to-end")
 	}
 	m, raw, okM := h.askExec(c, doc, c.Inputs)
 	if raw == nil {
@@ -1746,6 +1756,9 @@ func (h *harness) exec(c execCase, tags map[string]bool) {
 		return
 	}
 	run.Tag("exec:executed")
+	if typedSlicesMade > tsBefore {
+		run.Tag("typedSliceVars:executed")
+	}
 	run.Case(key, true, map[string]interface{}{"query": c.Query, "inputs": c.Inputs, "args": rec.args})
 	if m.StrictInputs && !m.SpecVars.Ok {
 		fail("strictly typed inputs: the request is executed although the specification refuses a variable: " + m.SpecVars.Err)
@@ -1836,6 +1849,9 @@ func (h *harness) genPoint(r *hx.Rng, s *gq.SchemaDesc, idx int) (pointCase, map
 		if r.Chance(1, 6) {
 			c.NumMode += "+nil"
 		}
+		if idx%5 == 1 || idx%5 == 3 {
+			c.NumMode += "+ts" // lists as typed Go slices (chosen by index: the random stream of the case is untouched)
+		}
 	} else {
 		g := &lgen{r: r, s: s, mut: []int{0, 1, 3}[r.Intn(3)], varP: []int{0, 0, 2}[r.Intn(3)], tags: tags}
 		c.HasLit = true
@@ -1885,6 +1901,9 @@ func underEntry(c execCase, base *gq.SchemaDesc, under string) execCase {
 
 func (h *harness) genExec(r *hx.Rng, s *gq.SchemaDesc, idx int) (execCase, map[string]bool) {
 	c, tags := h.genExec0(r, s, idx)
+	if idx%5 == 1 || idx%5 == 3 {
+		c.NumMode += "+ts" // list variables as typed Go slices
+	}
 	return underEntry(c, s, []string{"", "", "list", "list", "subscription"}[r.Intn(5)]), tags
 }
 
@@ -2617,6 +2636,22 @@ func (h *harness) probes(s *gq.SchemaDesc) {
 	ws2 := withField(&s2, gq.FieldDesc{Name: "cf", Type: "String", Args: []gq.ArgDesc{{Name: "a", Type: "PIn"}}})
 	h.exec(execCase{Kind: "exec", Schema: ws2, Query: `query($v: Int) { cf(a: {a: $v, b: 1}) }`, NumMode: "int", Inputs: map[string]interface{}{}}, tags)
 	h.exec(execCase{Kind: "exec", Schema: ws2, Query: `query($o: PIn) { cf(a: $o) }`, LitQuery: `{ cf(a: {b: 1}) }`, NumMode: "int", Inputs: map[string]interface{}{"o": map[string]interface{}{"b": 1}}}, tags)
+	// list variables built by a Go caller as typed slices: []string, []int, [][]int, []map[string]interface{}, []bool, []float64, empty, mixed
+	for _, p := range []struct {
+		typ string
+		val interface{}
+	}{
+		{"[String]", []interface{}{"ann", "bob"}}, {"[Int]", []interface{}{1, 2, 3}}, {"[[Int]]", []interface{}{[]interface{}{1, 2}, []interface{}{3}}},
+		{"[PIn]", []interface{}{map[string]interface{}{"b": 1}, map[string]interface{}{"a": 2, "b": 3}}}, {"[Boolean!]!", []interface{}{true, false}},
+		{"[Float]", []interface{}{dec(25, 1), dec(-125, 3)}}, {"[ID]", []interface{}{}}, {"[[String]]", []interface{}{[]interface{}{"a"}, nil, []interface{}{}}},
+		{"[[Int]]", []interface{}{4, 5}}, {"[Int]", []interface{}{"7", "x"}},
+	} {
+		ws3 := withField(&s2, gq.FieldDesc{Name: "cf", Type: "String", Args: []gq.ArgDesc{{Name: "a", Type: p.typ}}})
+		for _, mode := range []string{"int+ts", "json+ts"} {
+			h.point(pointCase{Kind: "point", Schema: &s2, Type: p.typ, HasValue: true, Value: p.val, NumMode: mode}, tags)
+			h.exec(execCase{Kind: "exec", Schema: ws3, Query: "query($v: " + p.typ + ") { cf(a: $v) }", NumMode: mode, Inputs: map[string]interface{}{"v": p.val}}, tags)
+		}
+	}
 }
 
 func main() {
@@ -2629,7 +2664,8 @@ func main() {
 	}
 	defer drv.Close()
 	h := &harness{run: run, drv: drv}
-	run.Res.Rule = "schemas from gen.SchemaGen augmented with custom scalar Odd, enum XE (arbitrary internal values) and recursive input objects XA/XB with field defaults; types = every named input type x the 19 wrapper shapes of depth <= 4 (enumerated round-robin); values = conformant or deviated per node (wrong kind, out of 32-bit range, fractional, numeric strings, unknown enum, unknown/missing field, null in non-null, list-of-one), numbers as Go int or as float64 (JSON); literals = text parsed by the real parser, every literal form incl. variables, duplicates, nil; end to end = graphql.Do on variable / literal / literal-with-variables documents with defaults at variable, argument and input-field level. non-trivial = a non-null value or a non-empty literal (pointwise), a valid document (end to end); distinct by (type, value, literal, vars, number mode, named type definition) resp. (query, inputs, field definition)"
+	run.Res.Rule = "schemas from gen.SchemaGen augmented with custom scalar Odd, enum XE (arbitrary internal values) and recursive input objects XA/XB with field defaults; types = every named input type x the 19 wrapper shapes of depth <= 4 (enumerated round-robin); values = conformant or deviated per node (wrong kind, out of 32-bit range, fractional, numeric strings, unknown enum, unknown/missing field, null in non-null, list-of-one), numbers as Go int or as float64 (JSON), lists as []interface{} or (2 cases in 5, tag typedSliceVars) as typed Go slices []string/[]int/[]float64/[]bool/[][]int/[]map[string]interface{}/…; literals = text parsed by the real parser, every literal form incl. variables, duplicates, nil; end to end = graphql.Do on variable / literal / literal-with-variables documents with defaults at variable, argument and input-field level. non-trivial = a non-null value or a non-empty literal (pointwise), a valid document (end to end); distinct by (type, value, literal, vars, number mode, named type definition) resp. (query, inputs, field definition)"
+	run.Res.Rule += "; dedupeCollision sweep (fixed): one operation with two aliased invocations of cf (root and under a list) whose argument literals are different values of one type with equal fmt %v text of the coerced Go value (string lists, nested lists, ID lists, input objects and lists of them with String fields, enum lists with internal values containing blanks), plus equal literals and spellings of one value; served by graphql.Do, PlanQuery + ExecutePlan and through a PlanCache (plain and normalising, miss then hit); every invocation must receive the model's getArgumentValues of its own literal"
 
 	if run.ReplayIn != "" {
 		var probe struct {
@@ -2642,7 +2678,13 @@ func main() {
 			run.Finish()
 			return
 		}
-		if probe.Case.Kind == "exec" {
+		if probe.Case.Kind == "pair" {
+			var rp struct {
+				Case pairCase `json:"case"`
+			}
+			hx.LoadReplay(run.ReplayIn, &rp)
+			h.pair(rp.Case)
+		} else if probe.Case.Kind == "exec" {
 			var rp struct {
 				Case execCase `json:"case"`
 			}
@@ -2682,6 +2724,7 @@ func main() {
 				h.unknownNullSweep(s)
 				h.historyAddField()
 				h.historyHeldPlan()
+				h.dedupeCollisionSweep(s)
 			}
 		}
 		r := hx.Fork(run.Seed, i)
